@@ -88,6 +88,10 @@ class Recorder:
         self.loaded_runs: list = []             # traces of continued loaded trees
         self.shared = False                     # one problem object shared by all levels: no per-level streams
         self.tree = None                        # set by the runner right after construction
+        # C20 "looking at a tree does not change it": in look mode the wrappers never touch the tree except at the
+        # loop-head boundaries of the look schedule ("all", or [period, phase]: metaepoch count % period == phase),
+        # where every reporting / query accessor is read and its answers are logged
+        self.look = None
 
     def __deepcopy__(self, memo):
         # SproutMechanism.get_seeds deep-copies candidates (individual -> problem -> objective -> recorder);
@@ -388,6 +392,44 @@ class Recorder:
         ev["b"] = self.take_batches()
         self.events.append(ev)
 
+    def look_due(self, mc: int) -> bool:
+        return self.look == "all" or (isinstance(self.look, (list, tuple)) and mc % int(self.look[0]) == int(self.look[1]))
+
+    def emit_look(self, tree, kind: str = "look") -> None:
+        """answers of the public reporting / query accessors at this moment, as digests (values, not ids: the two
+        runs of a pair keep separate recorders)"""
+        def dg(*parts) -> str:
+            h = hashlib.sha1()
+            for q in parts:
+                h.update(q if isinstance(q, bytes) else repr(q).encode())
+                h.update(b"|")
+            return h.hexdigest()[:12]
+
+        def guarded(f):
+            try:
+                return f()
+            except Exception as ex:  # noqa: BLE001
+                return "EXC " + type(ex).__name__
+
+        def indd(i):
+            return "" if i is None else dg(_key(i.genome), float(i.fitness))
+        demes = []
+        for _, d in tree.all_demes:
+            demes.append([d.id, int(bool(d.is_active)), int(bool(getattr(d, "_hibernating", False))), int(d.n_evaluations),
+                          int(d.metaepoch_count), guarded(lambda: indd(d.best_individual)),
+                          guarded(lambda: (lambda c: "" if c is None else dg(np.asarray(c).tobytes()))(d.centroid)),
+                          guarded(lambda: dg(sorted(d.best_fitness_by_metaepoch.items()))),
+                          self._digest([g for m in d._history for g in m])])
+        ev = {"e": kind, "mc": int(tree.metaepoch_count), "tev": int(tree.n_evaluations),
+              "best": guarded(lambda: indd(tree.best_individual)),
+              "summary": guarded(lambda: dg(tree.summary())), "tree": guarded(lambda: dg(tree.tree())),
+              "all": guarded(lambda: dg([(_key(i.genome), float(i.fitness)) for i in tree.all_individuals])),
+              "r5s": guarded(lambda: dg([(_key(i.genome), float(i.fitness)) for i in tree.r5s_solutions])),
+              "demes": demes}
+        self.take_batches()
+        ev["b"] = []
+        self.events.append(ev)
+
     # ------------------------------------------------------------------ output
     def finish(self) -> list[dict]:
         """Replace raw goodness values by dense ranks (0 = best)."""
@@ -430,6 +472,10 @@ class RecGSC(GlobalStopCondition):
         rec.consults += 1
         if rec.consults > rec.max_consults:
             raise TooManyConsults(f"more than {rec.max_consults} global stop condition consults")
+        if rec.look is not None:
+            if sys._getframe(1).f_code.co_name == "run" and rec.look_due(int(tree.metaepoch_count)):
+                rec.emit_look(tree)
+            return bool(self.inner(tree))
         f = sys._getframe(1)
         by, d = "other", ""
         name = f.f_code.co_name
@@ -460,6 +506,8 @@ class RecLSC(LocalStopCondition):
         self.level = level
 
     def __call__(self, deme) -> bool:
+        if self.rec.look is not None:
+            return bool(self.inner(deme))
         v = bool(self.inner(deme))
         self.rec.emit({"e": "lsc", "d": deme.id, "v": v, "snap": self.rec.snap(self.rec.tree, full=False)})
         return v
@@ -480,6 +528,8 @@ class RecSprout(SproutMechanism):
 
     def get_seeds(self, tree):
         rec = self.rec
+        if rec.look is not None:
+            return self.inner.get_seeds(tree)
         before = rec.snap(tree, full=True)
         pops = {}
         hists = {}
